@@ -7,11 +7,13 @@ def run(ctx: Ctx):
     n_defs, n_points = (24, 3) if ctx.tier == "quick" else (300, 6)
     ctx.translate("gen_layout")
     ctx.translate("gen_ekf")
-    ctx.prove("Props/C04.v", ["Props/C04_glue.v"])
+    ctx.translate("gen_noise")
+    ctx.prove("Props/C04.v", ["Props/C04_glue.v", "Props/C04_refine.v"])
     ctx.make(["Model/EkfExec.vo"])
     ctx.trusted += [
-        "translators gen_ekf.py (matrix formulas of process_model -> MathComp term and list-of-lists term from one IR; agreement of the two renderings is trusted and exercised by the correspondence) and gen_layout.py",
-        "Model/Named.py_noise_matrix: closed form of the process-noise double loop (hand model; the loop's source text is pinned by the correspondence on symbol and pair keys)",
+        "translators gen_ekf.py (matrix formulas of process_model -> MathComp term and list-of-lists term from one IR; the executable list rendering is PROVED to compute the entries of the MathComp rendering at the field rat: Props/C04_refine.v, premises (shapes) checked by computation on every case, code 9) and gen_layout.py",
+        "translator gen_noise.py (np.eye, the two enumerate loops, the if/elif chain over process_noise, the stores of _construct_process -> gen/NoisePy.v); Proofs/NoisePy.v proves the translated loop equal to the closed form Model/Named.py_noise_matrix used by the executable chain",
+        "control_size = number of declared controls = length of arglist_control (the three assignments are pinned by gen_noise.py; sorted() preserves length)",
         "oracle contracts: numpy matmul/transpose/+ are the matrix operations; sympy diff; lambdify; float rounding (relative 1e-9 on SPD dyadic P with |L_ij| <= 1)",
         "purity: gen_ekf.py refuses stores into parameters / self in process_model; inputs deep-compared before/after and the call repeated on the implementation",
     ]
